@@ -375,6 +375,8 @@ Definition segment_alloc_arena (c : cfg) (st : state) (b0 nslices : N) (huge com
     end
   end.
 
+Definition segment_os_alloc := segment_alloc_arena.     (* the name of the C function; the OS-backed variant follows *)
+
 (* the same straight from the OS (_mi_os_alloc_aligned: mmap RW when commit, else PROT_NONE) at slice addr *)
 Definition segment_alloc_os (st : state) (addr nslices : N) (huge commit unmap_ok : bool) (o : list bool)
   : option (state * option segment * list bool) :=
@@ -481,6 +483,8 @@ Definition segment_release (c : cfg) (a : arena) (acc : bits) (s : segment) (unm
   | MemArena b0 nb => arena_free c a acc b0 nb all_committed o
   | MemOs => (a, if unmap_ok then set_range acc (sg_base s) (sg_nslices s) false else acc, o)
   end.
+
+Definition segment_free := segment_release.             (* mi_segment_free -> mi_segment_os_free -> _mi_arena_free *)
 
 (* _mi_segment_page_free.  [clo, clo+cn) is the coalesced free span that mi_segment_span_free_coalesce builds around
    the page (normal segments); `expired`: a clock test of mi_segment_schedule_purge / mi_segment_try_purge passes *)
